@@ -84,6 +84,12 @@ def make_frame(rng, shape, kind):
         return np.zeros(shape, np.float32)
     if kind == "negative":
         return (-rng.poisson(20, shape)).astype(np.float32) - 3
+    if kind == "dip":
+        # a constant level with one strongly negative pixel (a dead / over-subtracted pixel): after log(x - min + 1) a high,
+        # flat pedestal with one dip -- the correlation is a flat plateau at a high level away from the dip
+        f = np.full(shape, float(rng.integers(0, 200)), np.float32)
+        f[int(rng.integers(shape[0])), int(rng.integers(shape[1]))] = -float(10 ** rng.uniform(3, 6))
+        return f
     if kind == "huge":
         return (rng.uniform(-1e6, 1e6, shape)).astype(np.float32)
     if kind in ("int16_span", "int8_span"):
@@ -198,6 +204,26 @@ def search(ctx, boost=1, focus=()):
         ctx.oracle_case("wellformed", p, msgs_, key=classify("wellformed", p, msgs_) if msgs_ else None,
                         nontrivial=border or p["frame_kind"] in ("const", "zero", "hot"))
         ctx.count("frame_" + p["frame_kind"])
+    # constant frames seen through windows that reach over the frame border: the log-scaled crop is a step (frame level inside,
+    # zero padding outside) and the correlation with a small flat pattern has a wide flat plateau at a high level -- the centre
+    # of mass of a flat neighbourhood is taken there
+    for k in range(8 * boost):
+        r_ = float(rng.choice([2.0, 2.5, 3.0]))
+        pat = {"kind": ("circular", "user", "background_subtraction")[k % 3], "radius": r_, "search": float(rng.integers(7, 11))}
+        if pat["kind"] == "background_subtraction":
+            pat["radius_outer"] = r_ * 1.5
+        c = int(np.ceil(pat["search"]))
+        shape = [int(rng.integers(2 * c, 40)), int(rng.integers(2 * c, 40))]
+        my, mx = shape[0] // 2, shape[1] // 2
+        d = [int(rng.integers(-c // 2, c // 2 + 1)) for _ in range(6)]
+        peaks = [[d[0], mx], [my, d[1]], [shape[0] - 1 + d[2], mx], [my, shape[1] - 1 + d[3]], [d[4], d[5]], [my, mx]]
+        if k % 2:
+            peaks = [[int(rng.integers(c, shape[0] - c + 1)), int(rng.integers(c, shape[1] - c + 1))] for _ in range(6)]
+        p = {"seed": int(rng.integers(1 << 30)), "pattern": pat, "shape": shape, "frame_kind": ("const", "dip")[k % 2], "peaks": peaks,
+             "b": int(rng.integers(1, 8)), "upsample": [False, 5][(k // 2) % 2], "backend": ("pixel", "slicing")[(k // 4) % 2]}
+        msgs_ = run_case("wellformed", p)
+        ctx.oracle_case("wellformed", p, msgs_, key=classify("wellformed", p, msgs_) if msgs_ else None, nontrivial=True)
+        ctx.count("const_over_border")
     # "crop sizes >= 2": one very large search window per run (a single crop is larger than the library's default buffer limit)
     c_big = int(rng.integers(182, 200))
     p = {"seed": int(rng.integers(1 << 30)), "pattern": {"kind": "circular", "radius": float(rng.integers(8, 30)), "search": float(c_big)},
